@@ -14,17 +14,23 @@ SPEC = dict(
          'denominators), history cut where sum|terms|*2^(fractional bits) would reach 2^48, so all arithmetic is exact; every returned '
          'output is compared BITWISE with a reference recurrence that keeps the full x[]/y[] histories and uses explicit index arithmetic; '
          'superposition (a*u+b*v, a,b in -4..4) and delay by 1..12 samples are checked as exact identities; a_tf_zero / a_tf_set_num / '
-         'a_tf_set_den / a_tf_init in mid-history are modelled by epochs in the reference. Real regime: random real coefficients '
+         'a_tf_set_den / a_tf_init in mid-history are modelled by epochs in the reference. Exact cancellation class (48 histories per repetition, num_n 1..4, '
+         'den_n 1..3, integer coefficients -3..3, scales 2^-960..2^960): integer inputs solved such that an output is 1..8 grid units while the positive '
+         'and the negative terms each sum to (2^52, 2^53] grid units - every subset sum is an integer <= 2^53 (checked per step in __int128), so '
+         'every summation order is exact; outputs (and 1..4 following steps, and the superposition a*u+b*v with v small or v = -u+small) must equal '
+         'the integer recurrence; steps with 0 < |y| < sum|terms|*eps/2 are counted (tf-exact-cancellation-below-half-ulp-of-term-sum). Real regime: random real coefficients '
          '(contractive, stable-pole and arbitrary denominators), one-step oracle in binary128 on the library\'s own history with the '
          'a-priori bound n*eps*sum|terms|; superposition/delay with the bound Delta/(1-sum|den|) on contractive filters. In both regimes after '
          'every call: delay lines hold the most recent samples first, canaries/exact-size blocks intact, context and coefficient vectors '
          'unchanged, zero state after init/zero, bitwise identical re-run after a_tf_zero. a_lpf/a_hpf: one-step oracle, exact dyadic '
          'regime, range/settling/decay clauses in logical steps, zero/init behaviour; a_lpf_gen/a_hpf_gen on log-uniform (fc, ts). '
          'distinct_nontrivial counts distinct (num_n, den_n, input class) triples of a_tf in which at least one non-empty history was judged '
-         'against the reference (at most 9*9*4 = 324), plus the clause classes of the float / long double companions and the (struct, order) classes of the C++ member-equivalence configuration - NOT the number of filter steps (evaluations).',
+         'against the reference (at most 9*9*4 = 324), plus the (num_n, den_n) pairs of the exact cancellation class, the clause classes of the float / long double companions and the (struct, order) classes of the C++ member-equivalence configuration - NOT the number of filter steps (evaluations).',
     exhaustive={'quick': None, 'thorough': None},
     require=['a_tf::operator()', 'a_tf::init', 'a_tf::set_num', 'a_tf::set_den', 'a_tf::zero', 'a_lpf::gen', 'a_lpf::operator()', 'a_lpf::zero', 'a_hpf::gen', 'a_hpf::operator()', 'a_hpf::zero',
              'w-tf-init-zero-state', 'w-tf-one-step-oracle', 'w-tf-delay-lines', 'w-tf-set-zeroes-new-line', 'w-tf-zero-restores-initial-state', 'w-gen-inside-unit-interval', 'w-rc-one-step-oracle', 'tf-exact-bitwise', 'tf-exact-superposition', 'tf-exact-time-invariance', 'tf-exact-reconfig-bitwise',
+             'tf-exact-cancellation-bitwise', 'tf-exact-cancellation-below-half-ulp-of-term-sum', 'tf-exact-cancellation-superposition',
+             'w-tf-exact-cancellation-bitwise', 'w-tf-exact-cancellation-below-half-ulp-of-term-sum', 'w-tf-exact-cancellation-superposition',
              'tf-real-onestep', 'tf-real-superposition', 'tf-real-time-invariance', 'tf-real-reconfig-onestep',
              'tf-init-zero-state', 'tf-zero-state-initial', 'tf-zero-rerun-identical', 'tf-zero-mid-history',
              'tf-set-num-mid-history', 'tf-set-den-mid-history', 'tf-reinit-mid-history',
@@ -59,7 +65,7 @@ SPEC = dict(
                'canary cells. All 81 order pairs are enumerated; histories, coefficients and inputs are sampled.',
     level_note='trusted: libquadmath binary128 arithmetic and the harness reference recurrence; histories are at most 500 samples (exact regime: '
                'as long as exactness is guaranteed, 1..500), orders at most 8; coefficients/inputs are sampled, not enumerated; the float (A_SIZE_REAL=4) and long double (16) builds are run through the compact '
-               'companion h_filter_w.c only (init/zero/set on garbage-filled exact-size delay lines, one-step binary128 oracle, RC filters; counters w-*); '
+               'companion h_filter_w.c only (init/zero/set on garbage-filled exact-size delay lines, one-step binary128 oracle, exact cancellation class with p = 24 / 64, RC filters; counters w-*); '
                'the C++ operator() wrappers are not executed',
     technique='exact-arithmetic reference recurrence (bitwise) + binary128 one-step oracle + LTI identities + canaries under ASan+UBSan'
               '; float / long double companion harness; C++ member vs C function twin execution on one object',
